@@ -17,8 +17,9 @@ RULE = ("generated *_test.ucg files (0-8 items: true/false asserts in literal, c
         "(verdict class, has-false, has-malformed, error kind, imports-asserting-lib); non-trivial = >=2 files and >=1 non-passing file")
 
 PROBES = ["failing_file_before_passing_file", "asserting_lib_imported_by_two_tests", "type_fail_path_seen", "dir_order_differs_from_argv_sorted",
-          "build_error_after_assertions", "file_listed_twice", "nested_dir_failure_only", "failing_lib_assert_shared"]
-FAULT_KINDS = ["nonutf8_test_file", "dangling_test_file", "missing_library"]
+          "build_error_after_assertions", "file_listed_twice", "nested_dir_failure_only", "failing_lib_assert_shared", "assert_in_module_body",
+          "unlistable_directory_in_walk"]
+FAULT_KINDS = ["nonutf8_test_file", "dangling_test_file", "missing_library", "unlistable_directory"]
 TIERS = {
     "quick": {"runs": 420, "wall_cap": 200},
     "thorough": {"runs": 9000, "wall_cap": 3300, "reexecute": 80},
@@ -56,6 +57,15 @@ def generate(rng, tier, idx):
                 kind = rng.weighted([("false", 5), ("malformed", 4), ("error", 3)])
             else:
                 kind = "true"
+            if kind in ("true", "false") and rng.chance(12):
+                # one assert *statement* inside a module body, evaluated once per instantiation with different outcomes
+                outcomes = [rng.chance(70) for _ in range(rng.between(2, 3))]
+                if kind == "false" and all(outcomes):
+                    outcomes[rng.below(len(outcomes))] = False
+                if kind == "true":
+                    outcomes = [True] * len(outcomes)
+                t["items"].append({"k": "module_assert", "uid": uid, "outcomes": outcomes})
+                continue
             if kind in ("true", "false"):
                 if t["imports"] and rng.chance(25):
                     li = rng.choice(t["imports"])
@@ -89,6 +99,10 @@ def generate(rng, tier, idx):
         o = rng.shuffle(list(range(n)))[:rng.between(1, min(2, n))]
         scheds.append({"mode": "files", "order": o + [o[0]], "twice": True})
     scheds.append({"mode": rng.choice(["dir", "dir_r", "noargs", "noargs_r", "dir_r_abs"])})
+    if rng.chance(12):
+        # a recursive walk that runs out of file descriptors somewhere below (a chain of empty directories deeper than the limit allows):
+        # listing that sub-directory fails; the files that can be reached keep their verdicts and a failing file still fails the run
+        scheds.append({"mode": rng.choice(["dir_r", "noargs_r"]), "nofile": rng.between(9, 12), "chain": 16})
     for sc in scheds:
         if sc["mode"] == "files":
             sc["abs"] = rng.chance(12)
@@ -147,6 +161,10 @@ def render_test(world, ti):
             if it["neg"]:
                 e = "not " + e
             L.append('assert {ok = %s, desc = "%s"};' % (e, u))
+        elif it["k"] == "module_assert":
+            L.append('let chk%s = module {v = true, tag = "x"} => { assert {ok = mod.v, desc = "%s-" + mod.tag}; };' % (u, u))
+            for n_, ok in enumerate(it["outcomes"]):
+                L.append('let inst%s_%d = chk%s{v = %s, tag = "i%d"};' % (u, n_, u, "true" if ok else "false", n_))
         elif it["k"] == "malformed":
             form = it["form"]
             if form == "nontuple":
@@ -214,7 +232,10 @@ def model(world, ti):
         for a in world["libs"][j]["asserts"]:
             (m["ok"] if a["ok"] else m["notok"]).append(a["uid"])
     for it in t["items"]:
-        if it["k"] in ("assert", "assert_lib"):
+        if it["k"] == "module_assert":
+            for n_, ok in enumerate(it["outcomes"]):
+                (m["ok"] if ok else m["notok"]).append("%s-i%d" % (it["uid"], n_))
+        elif it["k"] in ("assert", "assert_lib"):
             (m["ok"] if it["ok"] else m["notok"]).append(it["uid"])
         elif it["k"] == "malformed":
             m["notok"].append(it["uid"])
@@ -228,7 +249,7 @@ def model(world, ti):
 
 def file_kind(world, ti, m):
     t = world["tests"][ti]
-    return [m["verdict"], any(i["k"] in ("assert", "assert_lib") and not i["ok"] for i in t["items"]),
+    return [m["verdict"], any((i["k"] in ("assert", "assert_lib") and not i["ok"]) or (i["k"] == "module_assert" and not all(i["outcomes"])) for i in t["items"]),
             any(i["k"] == "malformed" for i in t["items"]), m["err"],
             any(world["libs"][j]["asserts"] for j in m["libs"])]
 
@@ -309,7 +330,11 @@ def execute(world, sb, res):
     all_tokens = {}
     for i, t in enumerate(tests):
         for it in t["items"]:
-            if it["k"] != "error":
+            if it["k"] == "module_assert":
+                for n_ in range(len(it["outcomes"])):
+                    all_tokens["%s-i%d" % (it["uid"], n_)] = ("test", i)
+                res.probe("assert_in_module_body")
+            elif it["k"] != "error":
                 all_tokens[it["uid"]] = ("test", i)
     for j, lib in enumerate(world["libs"]):
         for a in lib["asserts"]:
@@ -352,7 +377,13 @@ def execute(world, sb, res):
             argv = flags + ["test", "-r"]
         else:
             raise ValueError(mode)
-        inv = sb.invoke(argv, cwd=proj)
+        nofile = sc.get("nofile")
+        if nofile:
+            sb.mkdir(proj + "/zz_deep/" + "/".join("d%d" % k for k in range(sc["chain"])))
+            res.probe("unlistable_directory_in_walk")
+        inv = sb.invoke(argv, cwd=proj, nofile=nofile)
+        if nofile and "Too many open files" in inv.out:
+            res.fault("unlistable_directory")
         out = inv.out.replace("<ROOT>/" + base, "<W>")
         shown = [a.replace(sb.root + "/" + base, "<W>") for a in argv]
         if inv.timed_out:
@@ -478,7 +509,12 @@ def execute(world, sb, res):
                 res.violate("C13.summary", "verdict", "RESULTS says %s for %s, model says %s\n%s" % (got, test_path(tests[i]), want, ctx))
         # (c) exit status
         want_fail = any(models[i]["verdict"] == "FAIL" for i in order)
-        if (inv.status != 0) != want_fail:
+        if nofile:
+            # the listing error itself may (and does) make the run fail; what must not happen is a clean exit although a file failed
+            if want_fail and inv.status == 0:
+                res.violate("C13.exit-status", "zero-with-failure-under-listing-error", "exit status 0 although %s fail(s) (a sub-directory could not be listed)\n%s" % (
+                    [test_path(tests[i]) for i in order if models[i]["verdict"] == "FAIL"], ctx))
+        elif (inv.status != 0) != want_fail:
             nested_only = want_fail and all(models[i]["verdict"] == "PASS" or tests[i]["dir"] for i in order)
             res.violate("C13.exit-status", "nested-only" if nested_only else ("zero-with-failure" if want_fail else "nonzero-without-failure"),
                         "exit status %s but %s\n%s" % (inv.status, "some file fails: %s" % [test_path(tests[i]) for i in order if models[i]["verdict"] == "FAIL"] if want_fail else "every file passes", ctx))
